@@ -196,7 +196,9 @@ fn main() {
     let out = vh_common::TraceOut::from_env();
     let cases = vh_common::read_input();
     for (i, c) in cases.iter().enumerate() {
-        if i % 50 == 0 {
+        // `idx`: the case's index in the check's case list when this process runs only a part of it
+        let i = c["idx"].as_u64().map(|x| x as usize).unwrap_or(i);
+        if i % 50 == 0 || c["idx"].is_u64() {
             out.emit(json!({"ev": "reset", "beh": i / 50}));
         }
         let s = c["s"].as_str().unwrap().to_string();
